@@ -1144,19 +1144,61 @@ def rule_filter_verts(crate, prop, tier):
                             "map): a kept vertex that no kept arc touches gets no row in the result", prog.fns[p].get("span"))
                 continue
             good = False
+            from .facts import contradictory
             for lev in vloops:
-                u = ("field", ("dc", lev["res"], "Some"), "0")
-                body = an.cfg.loops.get(an.cfg.loop_of(lev["b"]), set())
-                tests = [ev for ev in an.events if ev["k"] == "call" and ev["key"] in ("core::ops::function::Fn::call", "core::ops::function::FnMut::call_mut")
-                         and ev["b"] in body and ev["args"] and len(ev["args"]) == 2 and ev["args"][1][0] == "agg" and tuple(ev["args"][1][3]) == (u,)]
-                for ev in an.events:
-                    if ev["k"] == "call" and ev["b"] in body and ev["key"] in ("alloc::collections::btree::map::BTreeMap::entry",
-                                                                              "alloc::collections::btree::map::BTreeMap::insert") \
-                            and len(ev["args"]) >= 2 and ev["args"][1] == u and ev["args"][0][0] == "addr" and ev["args"][0][1].startswith("L"):
-                        # under the test on u alone: not inside a further loop of the body
-                        if an.cfg.loop_of(ev["b"]) == an.cfg.loop_of(lev["b"]) and \
-                                any(fx.holds(ev["b"], lambda rel, t=t: rel.has(("true", t["res"]))) for t in tests):
-                            good = True
+                item = ("field", ("dc", lev["res"], "Some"), "0")
+                hb = an.cfg.loop_of(lev["b"])
+                body = an.cfg.loops.get(hb, set())
+                calls = [ev for ev in an.events if ev["k"] == "call" and ev["key"] in ("core::ops::function::Fn::call", "core::ops::function::FnMut::call_mut")
+                         and ev["b"] in body and an.cfg.loop_of(ev["b"]) == hb and ev["args"] and len(ev["args"]) == 2
+                         and ev["args"][1][0] == "agg" and len(ev["args"][1][3]) == 1]
+                for t in calls:
+                    u = t["args"][1][3][0]
+                    # the tested value is the scanned vertex: the item, or the key the item's first component points to
+                    if not (u == item or u == ("field", item, "0") or (u[0] == "mem" and u[3] is not None and u[3] in (("field", item, "0"), item))):
+                        continue
+
+                    def names_u(x):
+                        if x == u:
+                            return True
+                        if x[0] in ("at", "addr") and x[2] is None:
+                            vals = [v for (var, ver), v in an.term_of.items() if var == x[1] and v[0] != "opq"]
+                            return u in vals
+                        return x[0] == "mem" and x == u
+                    keyed = {ev["b"] for ev in an.events if ev["k"] == "call" and ev["b"] in body and len(ev["args"]) >= 2
+                             and ev["key"] in ("alloc::collections::btree::map::BTreeMap::entry", "alloc::collections::btree::map::BTreeMap::insert")
+                             and ev["args"][0][0] == "addr" and ev["args"][0][1].startswith("L") and names_u(ev["args"][1])}
+                    lookups = [ev["res"] for ev in an.events if ev["k"] == "call" and ev["b"] in body and len(ev["args"]) == 2
+                               and ev["key"] in ("alloc::collections::btree::map::BTreeMap::get_mut", "alloc::collections::btree::map::BTreeMap::get")
+                               and ev["args"][0][0] in ("addr", "at") and ev["args"][0][1].startswith("L") and names_u(ev["args"][1])]
+                    # every path from "the predicate holds for u" to the end of the iteration makes u a key of the result
+                    starts = [tg for tg, lab in an.cfg.succ[t["b"]]] if False else []
+                    latches = {pb for pb, _ in an.cfg.pred[hb] if an.cfg.dominates(hb, pb)}
+                    seen, work = set(), [t["b"]]
+                    leak = False
+                    assume = {("true", t["res"])}
+                    while work:
+                        x = work.pop()
+                        if x in seen:
+                            continue
+                        seen.add(x)
+                        if x in keyed and x != t["b"]:
+                            continue
+                        for tg, lab in an.cfg.succ[x]:
+                            if tg not in body:
+                                continue
+                            atoms = set(fx.close(fx.edge_atoms(x, lab, tg)))
+                            if contradictory(atoms | assume):
+                                continue
+                            if any(("variant", r_, "Some") in atoms for r_ in lookups):
+                                continue        # u was found to be a key already
+                            if tg == hb:
+                                if x in latches:
+                                    leak = True
+                                continue
+                            work.append(tg)
+                    if keyed and not leak:
+                        good = True
             o.check(good, who, "vertex-kept", "a scanned vertex that satisfies the predicate is not given a row of the result under that test "
                     "alone (it is kept only when a kept arc touches it)", vloops[0]["span"])
     return o.report(floors={"filter_vertices impls": (o.instances, 1)})
